@@ -167,4 +167,7 @@ def main():
 
 
 if __name__ == '__main__':
-    main()
+    try:
+        main()
+    except Exception as exc:     # a problem of the harness, not a verdict
+        print(json.dumps({'harness_error': repr(exc)}))
